@@ -70,6 +70,18 @@ def register(R):
         tags="C03 C10 C11",
     )
     register_buffered(R)
+    R.module("easynetwork/lowlevel/api_sync/endpoints/stream.py")
+    R.shape("_DataSenderImpl", cls="_DataSenderImpl", fields={"transport": "StreamWriteTransport", "producer": "StreamDataProducer"})
+    chunks = ("(fn('S_chunks', 'bytesseq', packet) if isnone(self.producer._StreamDataProducer__protocol._StreamProtocol__converter) "
+              "else fn('S_chunks', 'bytesseq', fn('K_dto', 'obj', packet)))")
+    R.contract(
+        "_DataSenderImpl.send",
+        params={"packet": "obj", "timeout": "xreal"},
+        ensures=[("wire-gets-exactly-the-packet-chunks-in-order", f"ghost.WIRE == old(ghost.WIRE) + flat({chunks})", "C04 C12")],
+        raises={"OSError": [("only-a-prefix-was-written", "len(ghost.WIRE) >= len(old(ghost.WIRE))", "C04")]},
+        modifies=["ghost.WIRE", "ghost.now"],
+        tags="C04",
+    )
 
 
 def register_buffered(R):
